@@ -363,7 +363,21 @@ pub fn t_mut_refs_to_scalars() -> String {
     let mut flag = false;
     let f = &mut flag;
     *f = !*f;
-    show!((ids, cs.a, cs.b, first, second, n, v, flag))
+    let mut rows = vec![vec![2.0, 4.0], vec![1.0, 3.0], vec![5.0, 5.0]];
+    for value in &mut rows[0] {
+        *value /= 2.0;
+    }
+    {
+        let (before, after) = rows.split_at_mut(1);
+        let (target, pivot) = (&mut after[1], &before[0]);
+        for (t, p) in target.iter_mut().zip(pivot.iter()) {
+            *t -= 5.0 * p;
+        }
+    }
+    for row in rows.iter_mut() {
+        row[1] += 0.5;
+    }
+    show!((ids, cs.a, cs.b, first, second, n, v, flag, rows))
 }
 
 pub fn all() -> Vec<(&'static str, String)> {
